@@ -74,6 +74,20 @@ pub fn exec(c: &OCase, repair: bool) -> OResult {
             let ratio = get_diff_ratio(&ops, c.oe - c.os, c.ne - c.ns);
             (ops, ratio)
         }
+        "slices_weakhash" | "slices_consthash" => {
+            // items whose legal Hash collides for unequal values (same equalities as the u32 items)
+            let ops = if c.entry == "slices_weakhash" {
+                let old: Vec<rec::WeakHash> = c.old[c.os..c.oe].iter().map(|v| rec::WeakHash(*v)).collect();
+                let new: Vec<rec::WeakHash> = c.new[c.ns..c.ne].iter().map(|v| rec::WeakHash(*v)).collect();
+                capture_diff_slices_deadline(c.alg, &old, &new, deadline)
+            } else {
+                let old: Vec<rec::ConstHash> = c.old[c.os..c.oe].iter().map(|v| rec::ConstHash(*v)).collect();
+                let new: Vec<rec::ConstHash> = c.new[c.ns..c.ne].iter().map(|v| rec::ConstHash(*v)).collect();
+                capture_diff_slices_deadline(c.alg, &old, &new, deadline)
+            };
+            let ratio = get_diff_ratio(&ops, c.oe - c.os, c.ne - c.ns);
+            (ops, ratio)
+        }
         "slices" => {
             let old = rec::items(&c.old[c.os..c.oe]);
             let new = rec::items(&c.new[c.ns..c.ne]);
@@ -119,7 +133,7 @@ pub fn exec(c: &OCase, repair: bool) -> OResult {
 /// ops of entries that work on extracted slices are relative to the slice: shift them back
 fn base_shift(c: &OCase) -> (usize, usize) {
     match c.entry {
-        "slices" | "textdiff" => (c.os, c.ns),
+        "slices" | "textdiff" | "slices_weakhash" | "slices_consthash" => (c.os, c.ns),
         _ => (0, 0),
     }
 }
@@ -223,6 +237,8 @@ pub fn from_json(v: &Value) -> OCase {
         "window" => "window",
         "slice" => "slice",
         "slices" => "slices",
+        "slices_weakhash" => "slices_weakhash",
+        "slices_consthash" => "slices_consthash",
         _ => "textdiff",
     };
     OCase {
@@ -287,6 +303,38 @@ pub fn drive_ops(a: &Args, out: &mut Out) {
     for _ in 0..a.num("nrand", nrand) {
         pairs.push(gen::random_pair(&mut rng, maxlen));
     }
+    // scale: more distinct tokens than 16 bits can number, with the longer side below / above
+    // 65 535 tokens (TextDiff maps tokens to integers above 100 tokens)
+    if a.get("big", "1") == "1" {
+        let t: Vec<u32> = (10_000..73_000).collect(); // 63 000 common lines
+        let a1: Vec<u32> = (0..1500).collect();
+        let b1: Vec<u32> = (80_000..81_500).collect();
+        let cat = |h: &Vec<u32>, t: &Vec<u32>| -> Vec<u32> { h.iter().chain(t.iter()).cloned().collect() };
+        let mut bigs = vec![(cat(&a1, &t), cat(&b1, &t))];
+        let l: Vec<u32> = (0..65_536).collect();
+        let mut o = l.clone();
+        o.push(99_999);
+        let mut n = l.clone();
+        n.push(0);
+        bigs.push((o, n));
+        for (x, y) in bigs {
+            for alg in [Algorithm::Myers, Algorithm::Patience] {
+                let c = OCase {
+                    alg,
+                    old: x.clone(),
+                    new: y.clone(),
+                    os: 0,
+                    oe: x.len(),
+                    ns: 0,
+                    ne: y.len(),
+                    entry: "textdiff",
+                    fuel: -2,
+                };
+                let case = out.next_case();
+                out.emit(&record(&c, case));
+            }
+        }
+    }
     for (i, (x, y)) in pairs.iter().enumerate() {
         for alg in ALGS {
             let whole = OCase {
@@ -316,6 +364,11 @@ pub fn drive_ops(a: &Args, out: &mut Out) {
             };
             let nf = if with_deadline && i % 4 == 0 { 4 } else { 0 };
             emit_with_fuels(&sub, out, &mut rng, nf);
+            if i % 3 == 1 {
+                let mut wh = whole.clone();
+                wh.entry = if i % 2 == 0 { "slices_weakhash" } else { "slices_consthash" };
+                emit_with_fuels(&wh, out, &mut rng, 0);
+            }
         }
     }
 }
